@@ -69,6 +69,7 @@ pub fn install_panic_hook() {
                   else if let Some(s) = info.payload().downcast_ref::<String>() { s.clone() } else { "?".to_string() };
         let name = thread::current().name().unwrap_or("?").to_string();
         let loc = info.location().map(|l| { let f = l.file(); let tail = match f.rfind("src/") { Some(i) => &f[i..], None => f }; format!("{}:{}", tail, l.line()) }).unwrap_or_default();
+        if name == "main" { eprintln!("MONITOR THREAD PANICKED: {} @ {}", msg, loc); }
         if let Ok(mut p) = PANICS.lock() { if p.len() < 256 { p.push((name, format!("{} @ {}", msg, loc))); } }
     }));
 }
@@ -110,7 +111,10 @@ fn wait_until(native: bool, watchdog: Duration, mut done: impl FnMut() -> bool) 
             // first give the other threads the processor for a while; if the condition still does not hold and nobody unparks us, the
             // untimed park turns a hang into a deadlock report of the interpreter (all other threads are blocked by then).
             spins += 1;
-            if spins < 3000 { thread::yield_now(); } else { thread::park(); }
+            if spins < 3000 { thread::yield_now(); } else {
+                if spins == 3000 { eprintln!("DHSTATE monitor is about to park without a time limit: {}", current_state()); }
+                thread::park();
+            }
             continue;
         }
         spins += 1;
@@ -128,6 +132,25 @@ fn wait_until(native: bool, watchdog: Duration, mut done: impl FnMut() -> bool) 
             prev = Some(snap);
         }
         if t0.elapsed() > watchdog { return Wait::TimedOut; }
+    }
+}
+
+static CUR_CTX: Mutex<Option<Arc<RunCtx>>> = Mutex::new(None);
+
+/// One line describing the run in progress (printed under Miri just before the monitor parks for good, so that a deadlock
+/// report of the interpreter can be read)
+fn current_state() -> String {
+    let g = CUR_CTX.lock().unwrap();
+    match &*g {
+        None => "no run in progress".into(),
+        Some(ctx) => {
+            let mut s = format!("template {} pool {} threads_done {} incomplete [{}] scheduler [{:?}] live_pool {}", ctx.prog.template, ctx.prog.pool, ctx.threads_done.load(Ordering::SeqCst),
+                incomplete_list(ctx, false), scheduler(), live_pool());
+            #[cfg(feature = "hooks")]
+            for i in 0..ctx.prog.n_obj { if let Some(d) = ctx.obj(i) { s.push_str(&format!(" obj{}=[{:?}]", i, d.verif_queue())); } }
+            for b in ctx.blocking.iter() { let v = b.load(ORD); if v != 0 { s.push_str(&format!(" blocked[{} in {}]", subject_name(ctx, (v >> 16) as usize - 1), phase_name((v >> 8) & 0xff))); } }
+            s
+        }
     }
 }
 
@@ -226,6 +249,7 @@ pub fn run_program(prog: Program, opts: &Opts, plan: noise::Plan) -> RunResult {
     let handles = build(prog, native);
     let ctx = Arc::clone(&handles.ctx);
     let mut objects = handles.objects;
+    if !native { *CUR_CTX.lock().unwrap() = Some(Arc::clone(&ctx)); }
     let mut diag = vec![];
     if let Err(w) = cfg {
         let (outcome, mut v) = match w {
@@ -282,6 +306,7 @@ pub fn run_program(prog: Program, opts: &Opts, plan: noise::Plan) -> RunResult {
         let c = Arc::clone(&ctx); let b = Arc::clone(&barrier);
         spawn_task("vh-f".into(), Box::new(move || {
             let _ = c.firer.set(thread::current());
+            c.register_thread();
             b.wait();
             let r = catch_unwind(AssertUnwindSafe(|| run_firer(&c, false)));
             if let Err(e) = r { thread_panicked(&c, "vh-f", e); }
@@ -293,6 +318,7 @@ pub fn run_program(prog: Program, opts: &Opts, plan: noise::Plan) -> RunResult {
         let c = Arc::clone(&ctx); let b = Arc::clone(&barrier);
         spawn_task("vh-p".into(), Box::new(move || {
             let _ = c.pusher.set(thread::current());
+            c.register_thread();
             b.wait();
             let r = catch_unwind(AssertUnwindSafe(|| run_firer(&c, true)));
             if let Err(e) = r { thread_panicked(&c, "vh-p", e); }
@@ -385,7 +411,22 @@ pub fn run_program(prog: Program, opts: &Opts, plan: noise::Plan) -> RunResult {
             // the exit hook runs while the thread is still unwinding; the scheduler only sees it as finished a moment later
             if native {
                 let _ = wait_until(native, watchdog, || quiesce::snapshot().map(|s| quiesce::pool_threads(&s) <= live_pool()).unwrap_or(true));
-            } else { for _ in 0..200 { thread::yield_now(); } }
+            } else {
+                // No /proc under Miri, and the interpreter needs many scheduling slices to run the dying thread to its very end.
+                // Establish "the thread is finished and has been reaped" explicitly: give it time, then make scheduling calls on a
+                // private object (each followed by a sync that carries the work itself) until the scheduler lists no dead thread.
+                let r = on_helper(native, watchdog, move || {
+                    let scratch = desync::Desync::new(0u32);
+                    for _ in 0..400 {
+                        for _ in 0..50 { thread::yield_now(); }
+                        scratch.desync(|v| *v += 1);
+                        scratch.sync(|_| {});
+                        let listed = format!("{:?}", scheduler()).chars().take_while(|c| *c == 'B' || *c == 'I').count();
+                        if listed <= live_pool() { break; }
+                    }
+                });
+                if r.is_err() { outcome = Outcome::Inconclusive("settling after the panic did not return".into()); break; }
+            }
         }
         for h in &ph.open_first { ctx.holds[*h].open(); }
         if let Some(newmax) = ph.reconfig {
@@ -596,6 +637,7 @@ pub fn run_program(prog: Program, opts: &Opts, plan: noise::Plan) -> RunResult {
         // threads are blocked inside the crate: dropping the last owners here would block the monitor as well
         std::mem::forget(objects);
     }
+    if !native { *CUR_CTX.lock().unwrap() = None; }
     let violations = ctx.sink.viol.lock().unwrap().clone();
     RunResult { outcome, violations, ctx, diag, stats, plan }
 }
@@ -626,6 +668,7 @@ pub fn shutdown_workers() {
 fn spawn_caller(ctx: &Arc<RunCtx>, t: usize, acts: Vec<TAct>, mortal: Option<Arc<Obj>>, barrier: Option<Arc<Barrier>>) {
     let c = Arc::clone(ctx);
     spawn_task(format!("vh-c{}", t), Box::new(move || {
+        c.register_thread();
         if let Some(b) = barrier { b.wait(); }
         let r = catch_unwind(AssertUnwindSafe(|| run_thread(&c, acts, mortal)));
         if let Err(e) = r { thread_panicked(&c, &format!("vh-c{}", t), e); }
